@@ -697,8 +697,28 @@ func runC09(ctx *Ctx, t *xt.T) (*xt.T, Verdict) {
 				}
 			}
 		}
+		// the refs whose history is judged: every created or moved ref, and - for a fetch - every want whose ref
+		// was then rejected (its objects were asked for and arrived all the same; "want cN" in messages)
+		type judged struct {
+			name string
+			tip  int
+		}
+		var judge []judged
+		tipSeen := map[int]bool{}
 		for _, n := range moved {
-			tip := recvAfter.Refs[n]
+			judge = append(judge, judged{n, recvAfter.Refs[n]})
+			tipSeen[recvAfter.Refs[n]] = true
+		}
+		if r1.outcome != 2 {
+			for _, w := range wants {
+				if !tipSeen[w] && recvAfter.Commits[w] {
+					judge = append(judge, judged{fmt.Sprintf("(want c%d)", w), w})
+					tipSeen[w] = true
+				}
+			}
+		}
+		for _, j := range judge {
+			n, tip := j.name, j.tip
 			if tip == 999999 {
 				fail("closure", "ref %s points at an unknown commit", n)
 				continue
